@@ -29,7 +29,8 @@ A1(col, op, lit, class) == A(col, op, lit, lit, class)
 CondText(a) == IF a.op = "istrue" THEN a.col
                ELSE IF a.op = "between" THEN a.col \o " between " \o a.lit.text \o " and " \o a.lit2.text
                ELSE IF a.op = "notbetween" THEN a.col \o " not between " \o a.lit.text \o " and " \o a.lit2.text
-               ELSE a.col \o " " \o OpText(a.op) \o " " \o a.lit.text
+               \* (spell: the operator written with one of its documented aliases)
+               ELSE a.col \o " " \o (IF "spell" \in DOMAIN a THEN a.spell ELSE OpText(a.op)) \o " " \o a.lit.text
 
 
 (* Polish-notation formulas over named atoms -> text.  prec: or 1, and 2, not 3, atom 4.          *)
